@@ -66,6 +66,17 @@ func Content(class string, seed int64, fileIdx, n, sliceSize int) []byte {
 			}
 		}
 		return b
+	case "crcfield":
+		// uniq content in which the full slices carry the boundary values of the 32-bit slice-checksum field: slice k
+		// has CRC-32 crcFieldTargets[k mod 6] (its last four bytes are solved for; needs a slice size >= 4)
+		b := Content("uniq", seed, fileIdx, n, sliceSize)
+		if sliceSize < 4 {
+			return b
+		}
+		for k := 0; (k+1)*sliceSize <= n; k++ {
+			ForceCRC32(b[k*sliceSize:(k+1)*sliceSize], crcFieldTargets[(k+fileIdx)%len(crcFieldTargets)])
+		}
+		return b
 	case "lookalike":
 		// every file of the set starts with the SAME first 16 KiB (and files of equal length then have the same
 		// 16k hash and length: anything keyed by those two mistakes one file for the other); the rest is distinct
@@ -150,4 +161,43 @@ func Garbage(seed int64, tag, n int) []byte {
 		b[i] |= 0x80
 	}
 	return b
+}
+
+var crcFieldTargets = []uint32{0, 1, 0xffffffff, 0x80000000, 0x0000ffff, 0xffff0000}
+
+// ForceCRC32 rewrites the last four bytes of sl so that its CRC-32 (IEEE) equals target. The CRC is affine in those
+// bytes over GF(2): solve the 32 x 32 system by elimination.
+func ForceCRC32(sl []byte, target uint32) {
+	tail := sl[len(sl)-4:]
+	set := func(v uint32) uint32 {
+		tail[0], tail[1], tail[2], tail[3] = byte(v), byte(v>>8), byte(v>>16), byte(v>>24)
+		return crc32.ChecksumIEEE(sl)
+	}
+	c0 := set(0)
+	// basis[i] = (effect on the CRC, combination of input bits producing it), reduced so that each has a distinct leading bit
+	var eff, comb [32]uint32
+	for i := 0; i < 32; i++ {
+		e, c := set(1<<uint(i))^c0, uint32(1)<<uint(i)
+		for bit := 31; bit >= 0; bit-- {
+			if e>>uint(bit)&1 == 0 {
+				continue
+			}
+			if eff[bit] == 0 {
+				eff[bit], comb[bit] = e, c
+				break
+			}
+			e ^= eff[bit]
+			c ^= comb[bit]
+		}
+	}
+	want, v := target^c0, uint32(0)
+	for bit := 31; bit >= 0; bit-- {
+		if want>>uint(bit)&1 == 1 {
+			want ^= eff[bit]
+			v ^= comb[bit]
+		}
+	}
+	if set(v) != target {
+		panic("scen: ForceCRC32 failed")
+	}
 }
